@@ -418,14 +418,20 @@ def _check_symbols(symbols, ir_node):
 
 
 def optimize(node: IRnode) -> IRnode:
-    _, ret = _optimize(node, parent=None)
+    _, ret = _optimize(node, parent=None, is_cond=False)
     return ret
 
 
-def _optimize(node: IRnode, parent: Optional[IRnode]) -> Tuple[bool, IRnode]:
+def _optimize(node: IRnode, parent: Optional[IRnode], is_cond: bool) -> Tuple[bool, IRnode]:
+    # is_cond: whether `node` is in a boolean context of `parent`, that is,
+    # only its truthiness matters (note that only the condition of an `if`
+    # is in a boolean context, its branches can be values)
     starting_symbols = node.unique_symbols
 
-    res = [_optimize(arg, node) for arg in node.args]
+    res = [
+        _optimize(arg, node, node.value in ("assert", "iszero") or (node.value == "if" and i == 0))
+        for (i, arg) in enumerate(node.args)
+    ]
     argz: list
     if len(res) == 0:
         args_changed, argz = False, []
@@ -472,7 +478,7 @@ def _optimize(node: IRnode, parent: Optional[IRnode]) -> Tuple[bool, IRnode]:
         if should_check_symbols:
             _check_symbols(starting_symbols, ret)
 
-        _, ret = _optimize(ret, parent)
+        _, ret = _optimize(ret, parent, is_cond)
         return True, ret
 
     if value == "seq":
@@ -486,12 +492,15 @@ def _optimize(node: IRnode, parent: Optional[IRnode]) -> Tuple[bool, IRnode]:
         # (seq x) => (x) for cleanliness and
         # to avoid blocking other optimizations
         if len(argz) == 1:
-            return True, _optimize(argz[0], parent)[1]
+            return True, _optimize(argz[0], parent, is_cond)[1]
 
         return finalize(value, argz)
 
     if value in arith:
         parent_op = parent.value if parent is not None else None
+        if parent_op == "if" and not is_cond:
+            # a branch of an `if`: not a boolean context
+            parent_op = None
 
         res = _optimize_binop(value, argz, annotation, parent_op)
         if res is not None:
